@@ -69,8 +69,11 @@ func c20Exec(r *vf.Run, k c20Case) (keys, whats []string) {
 	sess := &refsmtp.Session{Host: hx.Host, Caps: caps}
 	over := map[string]refsmtp.Action{}
 	exp := make([]c20Expect, k.M)
+	collateralFrom := k.M // messages from this index on fail because the connection was given up
 	// transaction numbers: message i is transaction i+1 unless an earlier message was refused locally (never here)
-	for _, f := range k.Fails {
+	fails := append([]c20Fail{}, k.Fails...)
+	sort.SliceStable(fails, func(a, b int) bool { return fails[a].Pos != "RSET" && fails[b].Pos == "RSET" })
+	for _, f := range fails {
 		txn := f.Msg + 1
 		mk := func(code int) refsmtp.Action {
 			lines, _ := c20Text(f.Text, code)
@@ -104,8 +107,14 @@ func c20Exec(r *vf.Run, k c20Case) (keys, whats []string) {
 			over[fmt.Sprintf("EOD#%d", txn)] = mk(f.Code)
 			*e = c20Expect{failed: true, reason: mail.ErrSMTPDataClose, code: f.Code, esc: lead}
 		case "RSET":
-			// the RSET that follows the successful delivery of message f.Msg: RSET events are counted per session
-			*e = c20Expect{failed: true, reason: mail.ErrSMTPReset, code: f.Code, esc: lead}
+			if e.failed {
+				// the clean-up RSET after a refused MAIL/RCPT/DATA is refused as well: the verdict stays that of the
+				// first failure; the connection is given up, so the remaining messages of the batch are collateral
+				collateralFrom = f.Msg + 1
+			} else {
+				// the RSET that follows the successful delivery of message f.Msg
+				*e = c20Expect{failed: true, reason: mail.ErrSMTPReset, code: f.Code, esc: lead}
+			}
 		}
 	}
 	// RSET positions depend on how many RSETs earlier messages caused; resolve dynamically
@@ -172,6 +181,16 @@ func c20Exec(r *vf.Run, k c20Case) (keys, whats []string) {
 			}
 		}
 		cls := fmt.Sprintf("%dyz", e.code/100)
+		if i >= collateralFrom {
+			nFailed++
+			if !m.HasSendError() {
+				add("collateral-message-without-error", fmt.Sprintf("message %d was sent after the connection had been given up but reports no error", i))
+			}
+			if m.IsDelivered() {
+				add("collateral-message-delivered", fmt.Sprintf("message %d reports delivery after the connection had been given up", i))
+			}
+			continue
+		}
 		if !e.failed {
 			if m.HasSendError() {
 				add("unaffected-message-has-error", fmt.Sprintf("message %d was not affected by any failing reply but reports %v", i, m.SendError()))
@@ -250,7 +269,7 @@ func c20Exec(r *vf.Run, k c20Case) (keys, whats []string) {
 			}
 			found := false
 			for i, m := range msgs {
-				if exp[i].failed && m.SendError() == e {
+				if (exp[i].failed || i >= collateralFrom) && m.SendError() == e {
 					found = true
 				}
 			}
@@ -305,6 +324,18 @@ func init() {
 									}
 								}
 								cases = append(cases, c20Case{ESC: esc, M: 3, R: 3, Fails: []c20Fail{{Msg: msg, Pos: "RCPT", Mask: mask, Code: code, Code2: other, Text: text}}})
+							}
+						}
+					}
+				}
+				// one message failing twice: MAIL / RCPT / DATA refused and then the clean-up RSET refused with another code
+				for _, p1 := range []string{"MAIL", "RCPT", "DATA"} {
+					for _, c1 := range []int{421, 450, 451, 550, 552, 554} {
+						for _, c2 := range []int{421, 451, 500, 503, 554} {
+							for msg := 0; msg < 3; msg++ {
+								for text := 0; text < 2; text++ {
+									cases = append(cases, c20Case{ESC: esc, M: 3, R: 3, Fails: []c20Fail{{Msg: msg, Pos: p1, Mask: 3, Code: c1, Text: text}, {Msg: msg, Pos: "RSET", Code: c2, Text: 1 - text}}})
+								}
 							}
 						}
 					}
